@@ -270,3 +270,30 @@ func VerifC08Items() {
 		rt.Assert(found, "every event of the window appears in the item of its second")
 	}
 }
+
+// VerifC08Ctor: a window view is only constructible when it tiles the underlying buckets exactly.
+// The array geometry (S,I) is a concrete job parameter; the view's sample count and interval are
+// symbolic (16 bits each). Tiling, stated without the implementation's divisions: the view interval
+// is n whole view buckets, a view bucket is m whole array buckets, and the array interval is k whole
+// view intervals.
+func VerifC08Ctor() {
+	S, I := uint32(rt.Param("S")), uint32(rt.Param("I"))
+	bla := verifNewArray(S, I, 0)
+	s, i := rt.U32n("viewSamples", 16), rt.U32n("viewInterval", 16)
+	m, err := NewSlidingWindowMetric(s, i, bla)
+	rt.Assert((m != nil) == (err == nil), "a view or an error")
+	if err != nil {
+		rt.Reach("c08.ctor-rejected")
+		return
+	}
+	rt.Reach("c08.ctor-accepted")
+	bl := I / S
+	rt.Assert(s > 0 && i > 0, "a view has at least one bucket and a positive interval")
+	if s == 0 || i == 0 {
+		return
+	}
+	vb := i / s
+	rt.Assert(vb*s == i, "the view interval is a whole number of view buckets")
+	rt.Assert(vb > 0 && vb/bl*bl == vb, "a view bucket is a whole number of array buckets")
+	rt.Assert(I/i*i == I, "the array interval is a whole number of view intervals")
+}
